@@ -49,6 +49,55 @@ impl Terminal {
         }
     }
 
+    /// Terminal without a history file, starting from the given history list.
+    #[cfg(lace_verif)]
+    pub fn verif_new(history: Vec<String>) -> Self {
+        let index = history.len();
+        Self {
+            stderr: io::stderr(),
+            buffer: String::with_capacity(INITIAL_BUFFER_CAPACITY),
+            cursor: 0,
+            visible_cursor: 0,
+            history: TerminalHistory {
+                list: history,
+                index,
+                file: None,
+            },
+        }
+    }
+
+    /// Feed one key to the line editor. Returns `true` on end of line.
+    #[cfg(lace_verif)]
+    pub fn verif_key(&mut self, key: Key) -> bool {
+        self.handle_key(key)
+    }
+
+    /// (edited line, visible cursor, focused history index, history length).
+    #[cfg(lace_verif)]
+    pub fn verif_view(&self) -> (String, usize, usize, usize) {
+        (
+            self.get_current().to_string(),
+            self.visible_cursor,
+            self.history.index,
+            self.history.list.len(),
+        )
+    }
+
+    /// History list.
+    #[cfg(lace_verif)]
+    pub fn verif_history(&self) -> Vec<String> {
+        self.history.list.clone()
+    }
+
+    /// The real `Read::read` path: next command of the current line, reading a new line from the
+    /// key device when needed.
+    #[cfg(lace_verif)]
+    pub fn verif_read(&mut self) -> String {
+        <Self as Read>::read(self)
+            .expect("terminal never reports end of input")
+            .to_string()
+    }
+
     /// Returns `true` if current line is a new line, rather than a focused history item.
     fn is_next(&self) -> bool {
         debug_assert!(
